@@ -96,7 +96,7 @@ def axis_values(draw, n, lo, hi):
     gap0 = draw(st.integers(2, 10))
     gaps = [gap0 if uniform else draw(st.integers(2, 10)) for _ in range(n - 1)]
     sign = draw(st.sampled_from([1, -1]))
-    unit = 2.0 ** -draw(st.sampled_from([0, 2, 3, 3, 10]))
+    unit = 2.0 ** -draw(st.sampled_from([0, 0, 2, 3, 3, 10]))
     vals = [float(start)]
     for gp in gaps:
         vals.append(vals[-1] + sign * gp * unit)
@@ -164,11 +164,12 @@ def cf1d_geom(draw, max_n=6, bounds_kinds=("none", "none", "contig", "gaps"), mi
         "bounds_kind": [lat_kind, lon_kind],
         # storage type of the two axes (applied only where it holds the values exactly)
         "coord_dtypes": [draw(st.sampled_from(["f8", "f8", "f4", "i4"])),
-                         draw(st.sampled_from(["f8", "f8", "f4", "i4"]))],
+                         draw(st.sampled_from(["f8", "f4", "i4", "i4"]))],
         "names": names,
         "coords_as": draw(st.sampled_from(["coord", "var"])),
         "bounds_as": draw(st.sampled_from(["var", "var", "coord"])),
-        "detect": draw(st.sampled_from(["units", "standard_name", "axis", "units_alt", "spelling", "spelling"])),
+        "detect": draw(st.sampled_from(["units", "standard_name", "axis", "units_alt", "spelling", "spelling",
+                                        "spelling", "spelling"])),
         "lon_first": draw(st.booleans()),
     }
 
